@@ -4,8 +4,9 @@ one of the given tags (e.g. `tools/seeded_table.py -r5- -r6-`), from seeded/RESU
 import json, os, sys
 HERE = os.path.dirname(os.path.abspath(__file__))
 SEEDED = os.path.join(os.path.dirname(HERE), "seeded")
-R = json.load(open(os.path.join(SEEDED, "RESULTS.json")))
-tags = sys.argv[1:]
+res = ([a[10:] for a in sys.argv[1:] if a.startswith("--results=")] or [os.path.join(SEEDED, "RESULTS.json")])[0]
+R = json.load(open(res))
+tags = [a for a in sys.argv[1:] if not a.startswith("--results=")]
 print("| id | change | reported as | first reason printed |\n|---|---|---|---|")
 for sid in sorted(R):
     if tags and not any(t in sid for t in tags):
